@@ -314,13 +314,60 @@ def _stale(name, k):
     return [v + g for g in range(ARRLEN[name])] if name in ARRLEN else v
 
 
+# aliasing between destination values is a boundary case of a stale destination: ONE object assigned to
+# every block (float array, integer array, python list); the other array parameters get one array per block
+ALIASED = {"mgFlux": "float", "lastMgFlux": "int", "extSrc": "list", "mgNeutronVelocity": "float"}
+
+
 def _set_stale(a, names):
+    """Writes stale values on every block; returns the ids of the stale container objects."""
     import numpy as np
 
+    shared = {}
+    for name in names:
+        how = ALIASED.get(name)
+        if how:
+            v = _stale(name, 0)
+            shared[name] = list(v) if how == "list" else np.array(v, dtype=int if how == "int" else float)
+    ids = set(id(o) for o in shared.values())
+    keep = list(shared.values())
     for k, b in enumerate(a):
         for name in names:
+            if name in shared:
+                b.p[name] = shared[name]
+                continue
             v = _stale(name, k)
-            b.p[name] = np.array(v) if isinstance(v, list) else v
+            if isinstance(v, list):
+                v = np.array(v)
+                ids.add(id(v))
+                keep.append(v)
+            b.p[name] = v
+    return ids, keep
+
+
+def _check_independent(acc, key, case, dest, names, stale_ids, source=None, what=""):
+    """After a mapping: changing one destination block's mapped array in place must not change any other
+    block's value (nor the source's). Values still living in a stale container were left alone - skipped."""
+    import numpy as np
+
+    for name in names:
+        objs = [b.p[name] for b in dest]
+        mapped = [k for k, o in enumerate(objs) if isinstance(o, np.ndarray) and o.size and id(o) not in stale_ids]
+        if not mapped:
+            continue
+        before = [_pv(b.p[name]) for b in dest]
+        sbefore = [_pv(b.p[name]) for b in source] if source is not None else None
+        k0 = mapped[0]
+        o = objs[k0]
+        orig = o.flat[0]
+        o.flat[0] = orig + 1000.0
+        after = [_pv(b.p[name]) for b in dest]
+        changed = [k for k in range(len(after)) if k != k0 and after[k] != before[k]]
+        o.flat[0] = orig  # restored exactly
+        if changed:
+            acc.bad(key + "-destination-values-aliased", "%s%s: writing into block %d's array also changed block(s) %s (values %s)" % (what, name, k0, changed, before), case)
+        elif sbefore is not None and [_pv(b.p[name]) for b in source] != sbefore:
+            acc.bad(key + "-destination-aliases-source", "%s%s: writing into destination block %d's array changed the source assembly" % (what, name, k0), case)
 
 
 def _set_profiles(a, vs):
@@ -550,11 +597,12 @@ def _remesh_one(acc, fac, case):
     bdens = _check_atoms(acc, "remesh", sfx, case, nucs, sdens, sb, B, db, tol, smass)
     bpar = _params(B)
     badp = _check_params(acc, "remesh", sfx, case, prof, bpar, sb, db, tol)
+    _check_independent(acc, "remesh", case, B, [n for n in ARRLEN if n not in badp], set(), source=A)
     if eps:
         acc.count("remesh_sliver_droppable" if _drop_frac(sb, db) > 0.0 else "remesh_sliver_must_be_counted" if any(0.0 < o < 1e-6 for j in range(len(db) - 1) for o in M.overlaps(sb, db[j], db[j + 1])) else "remesh_eps_no_sliver")
     # ---- B -> A on the real (heterogeneous) source assembly, which holds DIFFERENT prior values of every
     # mapped parameter: whatever B carries (zeros included) must replace them, only unset values leave them
-    _set_stale(A, [n for n, _k in PARAMS])
+    stale_ids, _keep = _set_stale(A, [n for n, _k in PARAMS])
     apar0 = _params(A)
     import numpy as np
 
@@ -573,6 +621,7 @@ def _remesh_one(acc, fac, case):
     bmass = _masses(B, nucs)
     _check_atoms(acc, "backmap", sfx, case, nucs, bdens, db, A, sb, tol, bmass)
     badp = _check_params(acc, "backmap", sfx, case, bpar, _params(A), db, sb, tol, prev=apar0, skip=[n for n in badp if n not in REWRITTEN])
+    _check_independent(acc, "backmap", case, A, [n for n in ARRLEN if n not in badp], stale_ids, source=B)
     # ---- there and back: totals restored (two mappings -> twice the per-mapping tolerance)
     amass = _masses(A, nucs)
     for n in sorted(smass):
@@ -1007,8 +1056,11 @@ def _convert_roundtrip(acc, case, h1, h2, hc, scale, m, mesh):
                 prof[n].append(v)
                 b.p[n] = np.array(v) if isinstance(v, list) else v
         state[a.getName()] = prof
-    for a in r.core:  # the original core holds other (stale) values of everything that is mapped back
-        _set_stale(a, names)
+    stale_ids, keep = set(), []
+    for a in r.core:  # the original core holds other (stale, partly aliased) values of everything mapped back
+        ids, kp = _set_stale(a, names)
+        stale_ids |= ids
+        keep += kp
     try:
         conv.applyStateToOriginal()
     except Exception as e:
@@ -1047,6 +1099,8 @@ def _convert_roundtrip(acc, case, h1, h2, hc, scale, m, mesh):
                     if not _cmp(g[j], w, tol * ref + slack):
                         acc.bad("conv-back-" + ("integrated-block" if kinds[n] == "vi" else "average-block" if kinds[n] == "avg" else "constant-not-constant"), "%s: cell %d of %s reads %r, overlap-weighted value from %s on %s is %r" % (n, j, sb, g[j], prof[n], db, w), case)
                         return
+    for a in r.core:
+        _check_independent(acc, "conv-back", case, a, [n for n in names if n in ARRLEN], stale_ids)
     acc.count("conv_roundtrips")
 
 
@@ -1512,6 +1566,8 @@ def run(ctx):
         "total height %d units of %g cm (exactly representable scales only), 2-4 blocks per assembly, one interior mesh point moved by +-1e-9/+-1e-13; the top point is never moved (meshes span the same height)" % (B["H"], scale),
         "tolerances: 1e-12 relative rounding; an overlap thinner than 1e-10 of its source block may or may not be counted (documented threshold of getBlocksBetweenElevations) - the oracle accepts exactly that band; 1e-10 for N*h_old/h_new re-association",
         "blocks of one assembly have equal cross-sectional area (checked as a generator precondition); parameter values positive, 0.0 / arrays of zeros (every kind) or unset; before state is mapped back the destination holds different stale values of every mapped parameter and the zero-profile parameters are written afresh on the uniform assembly; partially unset profiles only for a volume-integrated parameter",
+        "control-position family: per fuel pair the core is built once and the absorber column is moved with Block.setHeight through every (bottom, top) over {1..5} and those +-0.4; a reported case is replayed from a fresh build plus one setHeight step",
+        "before state is mapped back some destination parameters hold ONE stale container on every block (float array, integer array, list); after each mapping one mapped array is written in place and the other blocks / the source must not change",
         "generated cores: 2 fuel assemblies (+ optional control assembly), third-core hex, detailedAxialExpansion on; converter round trips only when the generated mesh keeps the assembly top",
         "average of partially covered output cells of resampleStepwise (avg=True, out-of-span) is not judged: two readings exist",
         "blueprints are parsed once per work item and a fresh assembly is constructed from them per case; every reported violation is re-evaluated from a fresh build",
